@@ -167,7 +167,7 @@ theorem Core.insRoot {s s5 : State} {r el : Id} {ns name : Str} {ph : Phase}
     (hnt : (⟨ns, name⟩ : EName) ≠ hN "template") :
     rootElems s5.dom r = rootElems s.dom r ++ [el] ∧ (∀ x, x < s.dom.size → nm s5.dom x = nm s.dom x) ∧
       ∀ ph' hd', (∀ x, hd' = some x → s5.dom.isElement x = true ∧ x ∉ s5.dom.childrenOf 0) →
-        ElemsOk s5.dom hd' r ph' →
+        ElemsOk s5.dom hd' r ph' → Afx s5.dom s5.activeFormatting r →
         Core { s5 with openElems := s5.openElems ++ [el], headElem := hd' } r [el] ph' := by
   obtain ⟨f1, f2, f3, f4, f5, f6, f7⟩ := h.fields
   obtain ⟨hkr, hdata, hrtu⟩ := h.root rfl
@@ -183,7 +183,7 @@ theorem Core.insRoot {s s5 : State} {r el : Id} {ns name : Str} {ph : Phase}
       intro x hx
       exact hel x (hklt x hx)
     · simp [h.elel]
-  refine ⟨hre, hnm, fun ph' hd' hhd he => ?_⟩
+  refine ⟨hre, hnm, fun ph' hd' hhd he hafx => ?_⟩
   have hnotopen := h.notOpen hc
   have hst : s.openElems = [r] := hc.stack
   have hlp := h.late.push (x := el) ⟨h.elel, h.loose⟩
@@ -191,7 +191,7 @@ theorem Core.insRoot {s s5 : State} {r el : Id} {ns name : Str} {ph : Phase}
     ⟨hlp.base, hlp.pat, ⟨hlp.st.doc, hlp.st.ctx, hlp.st.oe, hlp.st.tail, hhd, hlp.st.ptt⟩,
       ⟨hlp.ml.mode, hlp.ml.orig, hlp.ml.tm⟩⟩
   refine ⟨hl', by show s5.openElems ++ [el] = _; rw [f1, hst]; rfl, by rw [h.k0]; exact hc.rdoc,
-    ?_, ?_, ?_, ?_, by rw [f7]; exact hc.tmm, ?_, hrtu hc.rtu, ?_, ?_, he, by intro y hy; cases hy⟩
+    ?_, ?_, ?_, ?_, by rw [f7]; exact hc.tmm, ?_, hrtu hc.rtu, ?_, ?_, he, (by intro y hy; cases hy), hafx⟩
   · show (s5.openElems ++ [el]).Nodup
     rw [f1, List.nodup_append]
     exact ⟨hc.nodup, by simp, by intro a ha b hb; simp at hb; subst hb; rintro rfl; exact hnotopen ha⟩
@@ -275,7 +275,7 @@ theorem Core.transferRoot {s s' : State} {r : Id} {up : List Id} {ph : Phase} (h
   have hel : ∀ x ∈ s.openElems, s.dom.isElement x = true := h.late.st.oe
   have hsn : SameNames s.dom s'.dom s.openElems := SameNames.of_chg hc hel
   refine ⟨hl, by rw [hoe]; exact h.stack, hk0, by rw [hoe]; exact h.nodup, ?_, ?_, ?_, by rw [htm]; exact h.tmm, ?_,
-    hrtu, hrnd, hkids, ?_, ?_⟩
+    hrtu, hrnd, hkids, ?_, ?_, ?_⟩
   · rw [hoe]; exact h.tg.congr hsn
   · intro x t hx
     rw [haf] at hx
@@ -291,6 +291,8 @@ theorem Core.transferRoot {s s' : State} {r : Id} {up : List Id} {ph : Phase} (h
   · intro y hy
     rw [hsn y (by rw [h.stack]; exact List.mem_cons_of_mem _ (List.mem_of_mem_tail hy))]
     exact h.bh y hy
+  · rw [haf]
+    exact h.afx.congr hre (fun x hx => nm_chg hc (mem_rootElems hx).2) (fun y t hy => ⟨y, hy⟩)
 
 /-- `append_text` when the current node is neither a foster-parenting target nor a template;
 below the root the text has to be whitespace -/
